@@ -1,0 +1,10 @@
+//go:build verif
+
+package hevc
+
+// DecodeHEVCDecConfRec parses a byte slice with a reader of its own: nothing of the caller's state is assigned (the reader
+// handed to mp4.DecodeHvcCSR in particular keeps its position).
+//@ func DecodeHEVCDecConfRec
+//@   assigns nothing
+//@   loop 1 invariant cap(hdcr.NaluArrays) == 0 || fresh(hdcr.NaluArrays)
+//@   loop 2 invariant (cap(hdcr.NaluArrays) == 0 || fresh(hdcr.NaluArrays)) && (cap(array.Nalus) == 0 || fresh(array.Nalus))
